@@ -409,6 +409,45 @@ fn case_raw(kv: &Kv) -> String {
     let stack = kv["stack"];
     let via = kv.get("via").copied().unwrap_or("dispatch");
     assert!(dl.is_none() || !via.ends_with("_nodl"));
+    // index spaces far from zero: the same diff through lookups whose offsets are 2^32 - 3 and 2^40 larger must
+    // report the same calls shifted (positions beyond u32, straddling 2^32)
+    let mut bigoff_same: Option<bool> = None;
+    if let Some((ko, kn)) = s.off {
+        if fail.is_none() && dl.is_none() && stack == "none" {
+            let mut same = true;
+            for big in [(1usize << 32) - 3, 1usize << 40] {
+                let old = &Off { off: ko + big, v: s.old.clone() };
+                let new = &Off { off: kn + big, v: s.new.clone() };
+                let (log2, r2) = with_stack!(stack, fail, old, new, |d| call_entry!(
+                    via,
+                    alg,
+                    d,
+                    old,
+                    os + big..oe + big,
+                    new,
+                    ns + big..ne + big,
+                    None
+                ));
+                let old0 = &Off { off: ko, v: s.old.clone() };
+                let new0 = &Off { off: kn, v: s.new.clone() };
+                let (log1, r1) = with_stack!(stack, fail, old0, new0, |d| call_entry!(via, alg, d, old0, os..oe, new0, ns..ne, None));
+                let shifted: Vec<Call> = log1
+                    .iter()
+                    .map(|c| match *c {
+                        Call::Eq(a, b, l) => Call::Eq(a + big, b + big, l),
+                        Call::Del(a, l, b) => Call::Del(a + big, l, b + big),
+                        Call::Ins(a, b, l) => Call::Ins(a + big, b + big, l),
+                        Call::Rep(a, al, b, bl) => Call::Rep(a + big, al, b + big, bl),
+                        Call::Fin => Call::Fin,
+                    })
+                    .collect();
+                if shifted != log2 || err_code(&r1) != err_code(&r2) {
+                    same = false;
+                }
+            }
+            bigoff_same = Some(same);
+        }
+    }
     CMPS.with(|c| c.set(0));
     POST.with(|c| c.set(0));
     let deadline = install_clock(dl);
@@ -444,11 +483,16 @@ fn case_raw(kv: &Kv) -> String {
     } else {
         "probes=- cmps=-".to_string()
     };
+    let tail = match bigoff_same {
+        Some(b) => format!(" bigoff_same={}", if b { 1 } else { 0 }),
+        None => String::new(),
+    };
     format!(
-        "calls={} err={} {}",
+        "calls={} err={} {}{}",
         fmt_calls(&log),
         err_code(&r),
-        counters
+        counters,
+        tail
     )
 }
 
@@ -620,6 +664,37 @@ fn case_iter(kv: &Kv) -> String {
         }
     }
     let mut ref_same = cap.ops() == cap2.ops();
+    // other ways through the same iterators: nth / skip / step_by after some items were consumed, size_hint bounds
+    for op in &ops {
+        let full: Vec<_> = op.iter_changes(&old[..], &new[..]).map(|c| (c.tag(), c.old_index(), c.new_index(), c.value())).collect();
+        for consumed in 0..full.len().min(3) {
+            for skip in 0..3usize {
+                let mut it = op.iter_changes(&old[..], &new[..]);
+                for _ in 0..consumed {
+                    it.next();
+                }
+                let (lo, hi) = it.size_hint();
+                let rest = full.len() - consumed;
+                if lo > rest || hi.map_or(false, |h| h < rest) {
+                    ref_same = false;
+                }
+                let got = it.nth(skip).map(|c| (c.tag(), c.old_index(), c.new_index(), c.value()));
+                if got != full.get(consumed + skip).cloned() {
+                    ref_same = false;
+                }
+                let after: Vec<_> = it.map(|c| (c.tag(), c.old_index(), c.new_index(), c.value())).collect();
+                let want: Vec<_> = full.iter().skip(consumed + skip + 1).cloned().collect();
+                if after != want {
+                    ref_same = false;
+                }
+            }
+        }
+        let stepped: Vec<_> = op.iter_changes(&old[..], &new[..]).step_by(2).map(|c| (c.tag(), c.old_index(), c.new_index(), c.value())).collect();
+        let want: Vec<_> = full.iter().step_by(2).cloned().collect();
+        if stepped != want {
+            ref_same = false;
+        }
+    }
     // accessors agree with each other: as_tag_tuple = (tag, old_range, new_range)
     for op in &ops {
         let (t, o, n) = op.as_tag_tuple();
